@@ -240,6 +240,16 @@ async fn main() {
         validate_best_block_header(&derefed).await.unwrap()
     };
 
+    // A tower that has never completed a poll with a new best tip has no last known block stored. Store the bootstrap tip,
+    // so that a restart before that first poll completes resumes from here instead of from whatever the best tip is by
+    // then (which would skip every block mined in between, and the breaches in them).
+    if last_known_block.is_none() {
+        dbm.lock()
+            .unwrap()
+            .store_last_known_block(&tip.header.block_hash())
+            .unwrap();
+    }
+
     // DISCUSS: This is not really required (and only triggered in regtest). This is only in place so the caches can be
     // populated with enough blocks mainly because the size of the cache is based on the amount of blocks passed when initializing.
     // However, we could add an additional parameter to specify the size of the cache, and initialize with however may blocks we
